@@ -48,8 +48,11 @@ type Tty struct {
 	Errors  []string
 	OnWrite func(b []byte) // called under the tty lock, in write order
 	OnDrain func(t *Tty)   // called under the tty lock from inside Drain (fault injection)
-	Raw     []byte
-	KeepRaw bool
+	// OnNotifyNil is called (without the tty lock) when the resize callback is unregistered,
+	// i.e. in the window of a shutdown where the screen lock is free (fault injection)
+	OnNotifyNil func()
+	Raw         []byte
+	KeepRaw     bool
 
 	// fault injection
 	ReadErrAt       int64 // fail the k-th Read (1-based) with ReadErr; 0 = never
@@ -180,12 +183,16 @@ func (t *Tty) Close() error {
 
 func (t *Tty) NotifyResize(cb func()) {
 	t.mu.Lock()
-	defer t.mu.Unlock()
 	t.log("NotifyResize", 0, fmt.Sprint(cb != nil))
 	t.cb = cb
 	t.cbNil = cb == nil
 	if t.state == StClosed && !t.inApp() {
 		t.errf("NotifyResize after Close")
+	}
+	hook := t.OnNotifyNil
+	t.mu.Unlock()
+	if cb == nil && hook != nil {
+		hook() // outside the tty lock: the hook may call the screen
 	}
 }
 
